@@ -203,6 +203,12 @@ class KeyedList(Generic[ItemType, KeyType], MutableSequence, KeyedBase):  # pyli
             pass
         return super().__contains__(value)
 
+    def clear(self):
+        # (The `MutableSequence` default pops the items one by one, keying each
+        # of them; nothing needs to be keyed to drop everything.)
+        self._list.clear()
+        self._dict.clear()
+
     def reverse(self):
         # The `MutableSequence` mixin reverses by swapping items pairwise, which
         # transiently duplicates keys; reversing the underlying list is safe
